@@ -1,7 +1,7 @@
 from _common import COMMON_NOTE
 
 META = {'title': 'The AY chip turns any register history into the sound its registers define',
- 'lean_modules': ['ZxVerif.Props.C18', 'ZxVerif.Props.C18Filter', 'ZxVerif.Props.C18X'],
+ 'lean_modules': ['ZxVerif.Props.C18', 'ZxVerif.Props.C18Filter', 'ZxVerif.Props.C18X', 'ZxVerif.Props.C18Sys'],
  'extract': ['AyTables'],
  'modelled_code': ['aym/src/backends/precise.rs (integer core: ToneChannel/noise/envelope state, ENVELOPES, '
                    'ENVELOPE_RESET_TO_MAX, slide_up/slide_down/hold_*/reset_segment, update_tone/update_noise/'
@@ -47,7 +47,15 @@ META = {'title': 'The AY chip turns any register history into the sound its regi
                'is the closed form of the chip definition for all 16 shapes and all periods, the DAC index is the '
                'gated amplitude for all mixer masks and volume bytes and stays inside the table, the DAC tables are '
                'strictly monotonic in the 4-bit volume, the pan table is the documented placement, the data port '
-               'reads back the last value written and register numbers wrap modulo 16. The floating-point pipeline '
+               'reads back the last value written and register numbers wrap modulo 16. System level '
+               '(Props/C18Sys.lean): for every Z80 program run on the composed machine (any run length, CPU state, '
+               'memory, both machines, any controller configuration, any number of generator ticks between the '
+               'program\'s AY writes) the chip is the chip model folded over the program\'s AY port operations, the '
+               'machine model\'s own AY latch and file equal the chip\'s, an IN from an AY port returns the value '
+               'last written to the selected register (numbers modulo 16), every data write reaches the generator, and '
+               'the tone, noise, envelope and mixer clauses hold for the generator the program has programmed with the '
+               'periods taken from the machine\'s port-visible registers; adding the chip to the machine bus changes '
+               'nothing for the program (bus-homomorphism theorem for the CPU model). The floating-point pipeline '
                '(interpolator, FIR decimator, DC filter) is not modelled: finiteness, boundedness, pitch, envelope '
                'contour and stereo energy of the produced samples are observed by the correspondence harness at '
                '8-384 kHz, not proved.',
